@@ -113,6 +113,11 @@ func (w *World) checkSessionCookie(rec *CheckRec, f *FilterRT, wantExpired bool)
 	}
 	if pc.Name != f.Spec.CookieName() {
 		bad("name")
+		for _, o := range w.Filters {
+			if o.Idx != f.Idx && pc.Name == o.Spec.CookieName() {
+				w.violate("C18", "session-cookie-named-after-another-filters-prefix", fmt.Sprintf("check #%d: filter %s set its session cookie under the name of filter %s: %q (its own: %q)", rec.N, f.Spec.Chain, o.Spec.Chain, pc.Name, f.Spec.CookieName()))
+			}
+		}
 	}
 	if !strings.HasPrefix(pc.Name, "__Host-") {
 		bad("no-__Host-prefix")
